@@ -10,4 +10,13 @@ func init() {
 		Bounds:   "params (k operations, cap, maxkb); symbolic operation, mailbox, size from {400,700,1100}",
 		Assumes:  []string{"asynchronous listeners are run to completion after each operation (Quiesce); relative order of events and 'previous invocation finished first' are schedule properties that are not explored (see DESIGN §5)"},
 	})
+	register(Harness{
+		Prop: "C16", Pkg: "extension", Func: "VerifC16Order",
+		Quick:    [][]int64{{2, 0}, {2, 1}, {3, 1}},
+		Thorough: [][]int64{{3, 0}, {4, 0}, {4, 1}},
+		Unwind:   12,
+		Desc:     "one emitter sends n stored/deleted events through the real extension.Host brokers to a listener registered under one name for both event types; every listener invocation may be held (symbolic gate per event) until a later invocation or the harness releases it: the emitter is never blocked, the listener is never re-entered, every event is seen once and in emission order (stored before deleted, deliveries in arrival order)",
+		Bounds:   "params (n events <= 4, mixed: every second event is the deleted event of the message stored before it); symbolic hold/no-hold per invocation; run-to-block scheduling of the dispatch goroutines otherwise",
+		Assumes:  []string{"a slow or descheduled listener invocation is represented by a gate at the start of the listener; pre-emption inside the broker's own code is not explored"},
+	})
 }
